@@ -193,3 +193,24 @@ package flushable
 //@   loop 4 modifies gInitN, gInitRecv, gInitR0, gInitR1, gCMat[*], gKeyValueWriterPutN, gKeyValueWriterPutRecv, gKeyValueWriterPutA0, gKeyValueWriterPutA1, gKeyValueWriterPutR0, gWrOpN, gWrOpKind[*], gWrOpRecv[*], gWrOpKey[*], gWrOpVal[*], gWrOpErr[*]
 //@   loop 4 invariant gWrOpN >= atentry(gWrOpN) && forall(n string, _visited[n] ==> gCMat[p.wrappers[n].Flushable] >= atentry(gWrOpN))
 //@   loop 4 invariant forall(n string, has(p.wrappers, n) ==> gDMat[p.wrappers[n].Flushable] < atentry(gWrOpN) && gDMat[p.wrappers[n].Flushable] >= old(gWrOpN) && gFlAt[p.wrappers[n].Flushable] >= old(gLFlushN))
+//@
+//@ // ---- flush (C22): every overlay entry is handed to ONE batch of the underlying store, in ascending key order: a
+//@ // tombstone as Delete(key), a value as Put(key, value), with the key's bytes; the batch is written when it grows
+//@ // beyond the ideal size and at the end; only then is the overlay emptied. On an error the overlay is kept.
+//@ // opIs(j, k, v, b): writer op number j, issued on batch b, is the op of the overlay entry (k, v)
+//@ spec opIs(j int, k string, v interface{}, b kvdb.Batch) bool = gWrOpRecv[j] == b && len(gWrOpKey[j]) == len(k) && forall(x, 0, len(gWrOpKey[j]), gWrOpKey[j][x] == bytesof(k, x)) &&
+//@   ((v == nil && gWrOpKind[j] == 2) || (v != nil && gWrOpKind[j] == 1 && gWrOpVal[j] == unbox(v, "[]byte")))
+//@ func (*Flushable).flush
+//@   requires w != nil && w.underlying != nil && w.sizeEstimation != nil && (w.flushableReader.modified != nil ==> ovOK(w.flushableReader.modified))
+//@   modifies tHas[w.flushableReader.modified], tVal[w.flushableReader.modified], tN[w.flushableReader.modified], tKey[w.flushableReader.modified], tNode[w.flushableReader.modified], deref(w.sizeEstimation), gBatcherNewBatchN, gBatcherNewBatchRecv, gBatcherNewBatchR0, gBatchValueSizeN, gBatchValueSizeRecv, gBatchValueSizeR0, gBatchWriteN, gBatchWriteRecv, gBatchWriteR0, gBatchResetN, gBatchResetRecv, gKeyValueWriterPutN, gKeyValueWriterPutRecv, gKeyValueWriterPutA0, gKeyValueWriterPutA1, gKeyValueWriterPutR0, gKeyValueWriterDeleteN, gKeyValueWriterDeleteRecv, gKeyValueWriterDeleteA0, gKeyValueWriterDeleteR0, gWrOpN, gWrOpKind[*], gWrOpRecv[*], gWrOpKey[*], gWrOpVal[*], gWrOpErr[*]
+//@   ensures  [closed] w.flushableReader.modified == nil ==> result == errClosed && gWrOpN == old(gWrOpN) && gBatchWriteN == old(gBatchWriteN)
+//@   ensures  [batch] w.flushableReader.modified != nil ==> gBatcherNewBatchN == old(gBatcherNewBatchN) + 1 && gBatcherNewBatchRecv == w.underlying && gBatchResetN >= old(gBatchResetN) + 1
+//@   ensures  [ops] w.flushableReader.modified != nil && result == nil ==> gWrOpN == old(gWrOpN) + old(tN[w.flushableReader.modified]) && forall(i, 0, old(tN[w.flushableReader.modified]), opIs(old(gWrOpN) + i, old(tKey[w.flushableReader.modified][i]), old(tVal[w.flushableReader.modified][tKey[w.flushableReader.modified][i]]), gBatcherNewBatchR0))
+//@   ensures  [written] w.flushableReader.modified != nil && result == nil ==> gBatchWriteN >= old(gBatchWriteN) + 1 && gBatchWriteRecv == gBatcherNewBatchR0 && gBatchWriteR0 == nil
+//@   ensures  [emptied] w.flushableReader.modified != nil && result == nil ==> tN[w.flushableReader.modified] == 0 && forall(k string, !tHas[w.flushableReader.modified][k]) && deref(w.sizeEstimation) == 0
+//@   ensures  [kept] w.flushableReader.modified != nil && result != nil && !(gBatchWriteN >= old(gBatchWriteN) + 1 && gWrOpN == old(gWrOpN) + old(tN[w.flushableReader.modified])) ==> tN[w.flushableReader.modified] == old(tN[w.flushableReader.modified]) && forall(k string, tHas[w.flushableReader.modified][k] == old(tHas[w.flushableReader.modified][k]) && tVal[w.flushableReader.modified][k] == old(tVal[w.flushableReader.modified][k]))
+//@   loop 1 modifies it.node, it.position, gBatchValueSizeN, gBatchValueSizeRecv, gBatchValueSizeR0, gBatchWriteN, gBatchWriteRecv, gBatchWriteR0, gBatchResetN, gBatchResetRecv, gKeyValueWriterPutN, gKeyValueWriterPutRecv, gKeyValueWriterPutA0, gKeyValueWriterPutA1, gKeyValueWriterPutR0, gKeyValueWriterDeleteN, gKeyValueWriterDeleteRecv, gKeyValueWriterDeleteA0, gKeyValueWriterDeleteR0, gWrOpN, gWrOpKind[*], gWrOpRecv[*], gWrOpKey[*], gWrOpVal[*], gWrOpErr[*]
+//@   loop 1 invariant it.tree == w.flushableReader.modified && (it.position == 0 || it.position == 1) && (it.position == 1 ==> it.node != nil && nOwner[it.node] == it.tree && 0 <= nIdx[it.node] && nIdx[it.node] < tN[it.tree] && tNode[it.tree][nIdx[it.node]] == it.node)
+//@   loop 1 invariant gWrOpN == old(gWrOpN) + itCur(it) + 1 && gBatchWriteN >= old(gBatchWriteN) && gBatchResetN >= old(gBatchResetN)
+//@   loop 1 invariant forall(i, 0, itCur(it) + 1, opIs(old(gWrOpN) + i, tKey[it.tree][i], tVal[it.tree][tKey[it.tree][i]], batch))
+//@   loop 1 invariant forall(i, 0, itCur(it) + 1, !arrfresh(gWrOpKey[old(gWrOpN) + i], _alloc))
